@@ -379,7 +379,7 @@ func c05Run(c *mon.Ctx) {
 func init() {
 	mon.Register(&mon.Prop{
 		ID:          "C05",
-		Rule:        "every operation of Object, Spatial, Collection, geometry.Geometry and Series (21 operation groups) on ordered pairs of: 33 degenerate constructor-built objects (NewPolygon(nil), empty and 1-point lines, 2-point rings, empty and nested-empty collections, zero/negative/NaN-radius circles, inverted rectangles ...), random object trees of all kinds with empties and special floats, adversarial line pairs for the Line.ContainsLine walk (shared vertices, back-tracking, repeated vertices), and parsed objects; Parse under 17 option combinations on grammar documents, every structural mutant class, byte-level corruptions, truncation at every byte offset of 60 (thorough 600) documents, and nesting depths 10..5000 (thorough 10000). Monitors: recover()-based panic monitor, step budget in the Line.ContainsLine walk (hook), Parse object-xor-error, a no-progress watchdog confirmed by an isolated re-run, and process-fatal events attributed through a journal. Non-trivial = distinct (receiver, argument) pair.",
+		Rule:        "every operation of Object, Spatial, Collection, geometry.Geometry and Series (22 operation groups) on ordered pairs of: 33 degenerate constructor-built objects (NewPolygon(nil), empty and 1-point lines, 2-point rings, empty and nested-empty collections, zero/negative/NaN-radius circles, inverted rectangles ...), random object trees of all kinds with empties and special floats, adversarial line pairs for the Line.ContainsLine walk (shared vertices, back-tracking, repeated vertices), and parsed objects; Parse under 17 option combinations on grammar documents, every structural mutant class, byte-level corruptions, truncation at every byte offset of 60 (thorough 600) documents, and nesting depths 10..5000 (thorough 10000). Monitors: recover()-based panic monitor, step budget in the Line.ContainsLine walk (hook), Parse object-xor-error, a no-progress watchdog confirmed by an isolated re-run, and process-fatal events attributed through a journal. Non-trivial = distinct (receiver, argument) pair.",
 		Assumptions: []string{"'never loops forever' is restated as bounded progress: the walk step budget 2(n+1)(m+1)+16 and a 90 s no-progress watchdog per worker, confirmed by an isolated re-run before it counts", "nil arguments are out of scope except where a constructor explicitly accepts nil", "the thorough tier runs the whole workload in a -race build (which implies checkptr for the unsafe conversions in the JSON dependency); a process-fatal report is attributed through the journal"},
 		Run:         c05Run,
 		MustSee:     []string{"degenerate_pairs_done", "parse_accepted", "parse_rejected", "parsed_pairs_exercised", "truncation_sets", "hostile_series", "deep_nesting_done", "deep_objects_exercised"},
